@@ -6,7 +6,7 @@ PROPERTY = "C26"
 META = {
     "category": "proof",
     "technique": "contract-based deductive verification: VCs from the real Python AST + sidecar contracts, z3/cvc5",
-    "text": "Kernel-level proof for all inputs of the chunk arithmetic behind overlap/trim (ensure_minimum_chunksize, overlap/trim chunk identities); halo contents (NumPy) not covered.",
+    "text": "Kernel-level proof for all chunkings, depths (symmetric or (left, right) per axis) and sizes: ensure_minimum_chunksize keeps the total and makes every chunk >= depth (or raises exactly when the array is too small); _overlap_internal_chunks grows first/interior/last blocks by exactly the shared depths; the chunk arithmetic of trim_internal removes exactly those; client theorem: overlapping then trimming the chunk tuples is the identity. Halo contents, boundary modes and map_overlap values are NumPy-level: bounded native runs.",
     "note": "Trusted: self-built VC generator, SMT solvers, builtin models (len/min/sum/append), psum axioms. Not covered: NumPy halo contents, boundary modes, sliding_window_view, map_overlap function application.",
     "design_ref": "DESIGN.md §5.10",
 }
